@@ -52,6 +52,7 @@ static GenOptions gen_options(const std::map<std::string, std::string> &a) {
         while (std::getline(ss, tok, ',')) {
             if (tok == "null_cb") g.allow_null_cb = false;
             if (tok == "null_slot") g.allow_null_slot = false;
+            if (tok == "both") g.allow_both = false;
         }
     }
     return g;
@@ -95,7 +96,7 @@ static bool read_file(const std::string &path, std::string &out) {
 }
 
 static bool g_no_cold = false;
-static bool is_cold_index(uint64_t seed, uint64_t run) { return !g_no_cold && mix64(seed ^ 0xC01DULL, run) % 40 == 0; }
+static bool is_cold_index(uint64_t seed, uint64_t run) { return !g_no_cold && cold_candidate(seed, run); }
 
 static int cmd_gen(const std::map<std::string, std::string> &a) {
     uint64_t seed = strtoull(a.count("seed") ? a.at("seed").c_str() : "1", nullptr, 10);
@@ -189,8 +190,7 @@ struct Agg {
 static bool g_sweep = false;
 static void run_one(uint64_t seed, uint64_t run, const GenOptions &go, bool cold_process, FILE *out, Agg &agg, bool per_run) {
     Plan p = g_sweep ? generate_sweep_plan(seed, run, go) : generate_plan(seed, run, go);
-    if (!cold_process) p.cold = false;
-    else if (!p.cold) { /* the index was pre-selected but the plan has no codec-1 session: an ordinary run in a fresh process */ }
+    if (cold_process && !p.cold) shim_warm_rs();      // pre-selected index whose plan does not ask for a cold start: an ordinary warm run
     ExecOptions eo; eo.profile = go.profile; eo.check_indep = go.profile == "C12";
     if (g_status) { g_status->run = (int64_t)run; g_status->op = -1; g_status->in_call = 0; }
     alarm(30);
